@@ -40,6 +40,9 @@ def make_stub(fi, name, fail_at, complete_at, match, st, exc_type):
             self.seen.append(st.read_index)
             st.log.append(('feed', name, st.read_index))
             if fail_at and st.read_index == fail_at:
+                # with and without a message: an exception is a failure whatever str() makes of it
+                if (fail_at + len(name)) % 2:
+                    raise exc_type()
                 raise exc_type('scripted failure of %s' % name)
 
         def finish(self):
@@ -242,6 +245,8 @@ def record_real(fi, data, read_size, flavour, expected, inject, rnd, allowed=Non
             st.log.append(('feed', insp.NAME, st.read_index))
             try:
                 if inject and inject[0] == insp.NAME and inject[1] == st.read_index:
+                    if inject[1] % 2:
+                        raise Boom()
                     raise Boom('injected into %s' % insp.NAME)
                 return orig(chunk)
             except Exception:
@@ -343,8 +348,10 @@ def real_traces(ctx, fi):
         combos = combos[:7]
     # allowed_formats: the wrapper runs only the named inspectors (the expected one among them)
     for k in range(3 if quick else 12):
-        exp = rnd.choice(FORMATS + [None])
-        allowed = sorted(set(rnd.sample(FORMATS, rnd.randint(1, 4)) + ([exp] if exp else [])))
+        exp = rnd.choice(FORMATS + [None]) if k % 3 != 2 else rnd.choice(FORMATS[1:])
+        allowed = sorted(set(rnd.sample(FORMATS, rnd.randint(2, 4)) + ([exp] if exp else [])))
+        if k % 3 == 2:
+            allowed.remove(exp)      # the expected format is not among the allowed ones: no inspector of that name runs
         combos.append((rnd.choice(['file', 'iter']), exp, allowed))
     total = 0
     per = 60 if quick else 300
